@@ -553,8 +553,10 @@ class Expander:
             if max(clo_secs) > len(clos):
                 raise AnchorLost('%s: closure #%d no longer exists (%d closures)' % (label, max(clo_secs), len(clos)))
             arith = set(int(x) for x in ' '.join(sections.get('arith-standin', [])).split())
+            clos = [list(c) for c in clos]
             for n_ in sorted(clo_secs, reverse=True):
                 bar, hend, bs, be, is_block = clos[n_ - 1]
+                len_before_ = len(body_text)
                 if n_ in arith:
                     # rule E4-arith: `a op b` on plain identifiers -> VxArith::vx_op(a, b) (type-directed stand-in, see prelude)
                     seg = body_text[bs:be]
@@ -594,6 +596,11 @@ class Expander:
                 if not is_block:
                     body_c = '{ ' + body_c + ' }'
                 body_text = body_text[:bar] + header + '\n' + spec + '\n' + body_c + body_text[be:]
+                # a closure that encloses this one ends later now (nested closures: the inner one is spliced first)
+                grown_ = len(body_text) - len_before_
+                for c_ in clos:
+                    if c_[0] < bar and c_[3] >= be:
+                        c_[3] += grown_
         if 'pre' in sections:
             body_text = '{\n' + '\n'.join(sections['pre']) + '\n' + body_text[1:]
 
